@@ -183,7 +183,9 @@ class Scrambler(Elaboratable):
         # Create our inner LFSR, which should advance whenever our input streams do.
         m.submodules.lfsr = lfsr = ScramblerLFSR(initial_value=self._initial_value)
         m.d.comb += [
-            lfsr.clear    .eq(self.clear | comma_present),
+            # (A comma restarts our LFSR as it's transferred; if it's stalled, the word it's part of
+            # still needs the current LFSR state until it's actually accepted.)
+            lfsr.clear    .eq(self.clear | (comma_present & source.ready)),
             lfsr.advance  .eq(sink.valid & source.ready & ~self.hold)
         ]
 
